@@ -103,8 +103,9 @@ Definition apply_dump (K : N) (d : list (option bytes)) (l : list tx) : list (op
 (* verdict of one step: 0 fine, 2 violation, 10+k known class *)
 Definition K_ROLLBACK : N := 3.
 Definition K_FIRSTSIG : N := 4.
+Definition K_TSREG : N := 6.
 Definition step_oracle (K : N) (tr : wtrack) (ph : N) (pd : list (option bytes)) (o : op) (ob : obs) : N :=
-  let '(r, h, v, d, tt) := ob in
+  let '(r, h, v, d, btx) := ob in
   let same := N.eqb h ph && dump_eqb d pd in
   let ok :=
     match o with
@@ -113,7 +114,7 @@ Definition step_oracle (K : N) (tr : wtrack) (ph : N) (pd : list (option bytes))
         | Some (l, _) =>
             if N.eqb r 0 then
               (if is_nil l then same
-               else N.eqb h (ph + 1) && dump_eqb d (apply_dump K pd l) && list_eqb tx_eqb tt l)
+               else N.eqb h (ph + 1) && dump_eqb d (apply_dump K pd l) && list_eqb tx_eqb btx l)
             else same
         | None => same
         end
@@ -127,9 +128,11 @@ Definition step_oracle (K : N) (tr : wtrack) (ph : N) (pd : list (option bytes))
            | Some (_, h0) => if N.ltb h0 ph then V_KNOWN K_ROLLBACK else V_VIOLATION
            | None => V_VIOLATION
            end
-       | ORaw dsc =>
-           if N.eqb ph 0 && N.eqb r 0 && ok && negb (N.eqb (rd_sig dsc) 0) && negb (N.eqb (rd_sig dsc) 4)
-           then V_KNOWN K_FIRSTSIG else V_VIOLATION
+       | ORaw _ =>
+           if N.eqb ph 0 && N.eqb r 0 && ok && (N.eqb v E_NOSIG || N.eqb v E_UNKNOWN || N.eqb v E_BADSIG)
+           then V_KNOWN K_FIRSTSIG
+           else if N.eqb r 0 && ok && N.eqb v E_TS then V_KNOWN K_TSREG else V_VIOLATION
+       | OCommit _ _ => if N.eqb r 0 && ok && N.eqb v E_TS then V_KNOWN K_TSREG else V_VIOLATION
        | _ => V_VIOLATION
        end.
 Definition track (tr : wtrack) (ph : N) (o : op) (r : N) : wtrack :=
@@ -253,9 +256,11 @@ Definition count_eq (l : list tx) (bs : list (list tx)) : N :=
   N.of_nat (length (filter (fun x => list_eqb tx_eqb x l) bs)).
 Definition conc_oracle (K : N) (wss : list (list tx)) (res : list N) (chain : list (list tx)) (ver : N) (d : list (option bytes)) : bool :=
   N.eqb ver 0
-  && forallb (fun wr => let '(l, r) := wr in
+  && forallb (fun wr => let '(l, _) := wr in
                 if is_nil l then true
-                else if N.eqb r 0 then N.eqb (count_eq l chain) 1 else N.eqb (count_eq l chain) 0) (combine wss res)
+                else N.eqb (count_eq l chain)
+                           (N.of_nat (length (filter (fun wr' => list_eqb tx_eqb (fst wr') l && N.eqb (snd wr') 0) (combine wss res)))))
+             (combine wss res)
   && forallb (fun b => match index_of b wss 0 with Some _ => true | None => false end) chain
   && dump_eqb d (apply_dump K (dump K []) (concat chain)).
 Definition check_conc (c : conc_case) : N :=
@@ -278,10 +283,10 @@ Definition rblock := (list tx * bool * rawdesc)%type.
 Definition mk_rblock (sto : store) (m : cmem) (rb : rblock) : block :=
   let '(txs, good, d) := rb in
   let s := St sto m [] in
-  let b := mk_raw s (RD (rd_height d) (rd_prev d) (rd_txroot d) txs 1 (rd_ts d)) in
+  let b := mk_raw s (RD (rd_height d) (rd_prev d) (rd_txroot d) txs (rd_sig d) (rd_ts d)) in
   let d1 := apply_txs (s_data sto) txs in
   let root := if good then SR_sym (Sto d1 (s_blocks sto) (s_meta sto)) else [4004] in
-  let h0 := set_sroot root (b_hdr b) in
+  let h0 := set_sig [] (set_sroot root (b_hdr b)) in
   let sg := match rd_sig d with 1 => [] | 2 => [4003] | _ => sign_sym (h_proposer h0) (Vpre h0) end in
   Bk (set_sig sg h0) txs [].
 Fixpoint replay_sym (sto : store) (m : cmem) (bs : list rblock) : store * list N :=
@@ -292,11 +297,24 @@ Fixpoint replay_sym (sto : store) (m : cmem) (bs : list rblock) : store * list N
       let '(sto1, m1, e) := apply_block Hsym ser_sym (reg_sym extra) sigv_sym SR_sym fl sto m b in
       let '(sto2, es) := replay_sym sto1 m1 r in (sto2, e :: es)
   end.
-(* (K, genesis ts, blocks, replica 1: [(result, root id after the block)], replica 2 likewise, dump 1, dump 2) *)
-Definition replay_case := (N * N * list rblock * list (N * N) * list (N * N) * list (option bytes) * list (option bytes))%type.
+(* roots may differ between the replicas only after a block was accepted (class K_ROOT, shared store only) *)
+Definition K_ROOT : N := 5.
+Fixpoint roots_agree (acc : bool) (r1 r2 : list (N * N)) : N :=   (* 0 agree, 1 differ after an accept, 2 differ before *)
+  match r1, r2 with
+  | (c1, i1) :: t1, (c2, i2) :: t2 =>
+      let acc' := acc || N.eqb c1 0 in
+      if N.eqb i1 i2 then roots_agree acc' t1 t2
+      else if acc' then N.max 1 (roots_agree acc' t1 t2) else 2
+  | _, _ => 0
+  end.
+(* (K, genesis ts, shared store?, blocks, replica 1: [(result, root id after the block)], replica 2 likewise, dump 1, dump 2) *)
+Definition replay_case := (N * N * bool * list rblock * list (N * N) * list (N * N) * list (option bytes) * list (option bytes))%type.
 Definition check_replay (c : replay_case) : N :=
-  let '(K, gts, bs, r1, r2, d1, d2) := c in
-  if negb (list_eqb (pair_eqb N.eqb N.eqb) r1 r2 && dump_eqb d1 d2) then V_VIOLATION
+  let '(K, gts, shared, bs, r1, r2, d1, d2) := c in
+  let ra := roots_agree false r1 r2 in
+  if negb (list_eqb N.eqb (map fst r1) (map fst r2) && dump_eqb d1 d2 && N.eqb (N.of_nat (length r1)) (N.of_nat (length r2))) then V_VIOLATION
+  else if N.eqb ra 2 then V_VIOLATION
+  else if N.eqb ra 1 then (if shared then V_KNOWN K_ROOT else V_VIOLATION)
   else
     let s0 := init_st gts in
     let '(sto, es) := replay_sym (t_store s0) (t_mem s0) bs in
